@@ -13,7 +13,7 @@ STORY_IDS = ['A', 'B', 'C', 'D', 'E', 'F', 'G', 'H']
 ITEM_IDS = ['i1', 'i2', 'i3', 'i4', 'i5', 'i6']
 UNKNOWN = 'ZZ'
 
-RO_LAYOUTS = ['plain', 'between', 'trailing', 'nometa']
+RO_LAYOUTS = ['plain', 'between', 'trailing', 'nometa', 'bare', 'blankids', 'noids']
 PARA_LAYOUTS = ['none', 'between', 'leading', 'trailing']
 TIMINGS = ['all', 'none', 'mixed']
 
@@ -46,7 +46,9 @@ def make_ro(story_ids, layout='plain', items=None, para_layout='none', timing='n
             ed_start=None, message_id=1, ro_id='RO1'):
     """items: dict story id -> list of item ids (default: two items i1, i2)"""
     kids = []
-    if layout != 'nometa':
+    if layout == 'bare':
+        pass            # nothing before the first story: roID and roSlug come after the stories
+    elif layout != 'nometa':
         kids += ro_head(ro_id)
     else:
         kids.append(E('roID', text=ro_id))
@@ -58,6 +60,14 @@ def make_ro(story_ids, layout='plain', items=None, para_layout='none', timing='n
         its = ITEM_IDS[:2] if items is None else items.get(sid, [])
         kids.append(story(sid, body=story_body(its, para_layout), slug='Story ' + str(sid),
                           meta=timing_meta(k, timing)))
+        if layout in ('blankids', 'noids') and k == 0:
+            # placeholder stories: a blank <storyID/> (holding an item with a blank <itemID/>) and, in
+            # 'noids', one with no storyID at all - no reference, blank or not, may ever select them
+            kids.append(story(None, body=[item(ITEM_IDS[0], slug='in-blank'), item(None, slug='blank-item')], slug='Blank'))
+            if layout == 'noids':
+                kids.append(story(ABSENT, body=[item(ITEM_IDS[0], slug='in-noid'), item(ABSENT, slug='noid-item')], slug='NoId'))
+    if layout == 'bare':
+        kids += ro_head(ro_id)
     if layout == 'trailing':
         kids.append(E('mosExternalMetadata', E('mosSchema', text='http://schema/ro'),
                       E('mosPayload', E('Owner', text='x'))))
@@ -211,6 +221,16 @@ def merge_cases_item(n_max=4, max_src=2, para_layouts=PARA_LAYOUTS):
             for cls, doc, meta in item_level_messages(story_refs, its, max_src=max_src):
                 meta = dict(meta, cls=cls, n=n, para=pl)
                 yield {'ro': ro, 'msg': to_text(doc), 'meta': meta}
+    yield from merge_cases_placeholder(max_src=min(max_src, 2))
+
+
+def merge_cases_placeholder(max_src=2):
+    """item-level messages whose story reference is blank or missing, against a running order that holds
+    placeholder stories (blank / missing storyID) with items i1 and a blank-ID item: nothing may be selected"""
+    for layout in ('blankids', 'noids'):
+        ro = to_text(make_ro(['A', 'B'], layout=layout))
+        for cls, doc, meta in item_level_messages([None, ABSENT], ITEM_IDS[:1], max_src=max_src):
+            yield {'ro': ro, 'msg': to_text(doc), 'meta': dict(meta, cls=cls, n=1, para='placeholder-' + layout)}
 
 
 def merge_cases_other():
@@ -331,3 +351,24 @@ def state_ids(ro_text):
                 sids.append(sid)
                 items[sid] = [i.findtext('itemID') for i in s.findall('item') if i.findtext('itemID')]
     return sids, items
+
+
+def vary_envelope(rng, text, prob=0.25):
+    """the same message in a non-standard <mos> envelope: ncsID or mosID left out, or an extra element in
+    front of the body - the body then sits at another child index than in the usual layout"""
+    if rng.random() >= prob:
+        return text
+    from xml.etree import ElementTree as ET
+    root = ET.fromstring(text)
+    how = rng.choice(['no-ncs', 'no-mos', 'extra-before', 'extra-first'])
+    if how == 'no-ncs' and root.find('ncsID') is not None:
+        root.remove(root.find('ncsID'))
+    elif how == 'no-mos' and root.find('mosID') is not None:
+        root.remove(root.find('mosID'))
+    elif how == 'extra-before':
+        mid = root.find('messageID')
+        idx = list(root).index(mid) + 1 if mid is not None else len(root)
+        root.insert(idx, ET.Element('mosExtra'))
+    else:
+        root.insert(0, ET.Element('mosExtra'))
+    return ET.tostring(root, encoding='unicode')
